@@ -112,6 +112,23 @@ CHECKS = {
         "applied through a seeding subclass of stochastic members); a member's state means a deep __dict__ snapshot; election semantics are C13's.",
    technique="Lean 4 proof (induction over the member list and the op list, delivered-calls simulation) + twin-run differential correspondence with malformed-call injection",
    ref="§7 C12"),
+ "C15": dict(
+   text="Lean 4 noninterference and inputs-unchanged theorems for an ownership discipline (copy on validation, detector operations read only detector-owned "
+        "locations, injectors work on fresh copies), with a proved counter-model for aliasing (a detector keeping the caller's location is not covered). "
+        "Adherence of the implementation is established by bit-for-bit snapshots of every passed object before/after each call and by overwrite-vs-private-copy "
+        "twin runs over ndarray (C / Fortran / strided) and DataFrame (single / mixed dtype) inputs at every call position, for all detectors and injectors.",
+   note="PARTIAL by nature: the theorem is about the discipline; Python object identity is outside any Lean model, so the tie to the code is the differential runs.",
+   technique="Lean 4 proof (unwinding-style noninterference over interleavings) + snapshot and twin-run relation on the real classes",
+   ref="§7 C15"),
+ "C18": dict(
+   text="Lean 4 theorems (List.Perm): for row-permuted reference and test batches the HDM per-feature min/max, histogram count vectors, recorded distance, and "
+        "(detect_batch != 1, same oracle inputs) epsilon / beta / decision traces over whole histories are equal; np.unique pool and membership vectors, NNPS "
+        "distance and NNDVI decision traces are equal; (kd-tree part in progress). On the real classes: every batch of a sequence permuted (reversal, rotation, "
+        "random), distances / per-node counts / decisions compared under the same seed schedule, incl. large-batch histories.",
+   note="Theorems need a lawful linear order (Float is not one: the twin runs cover it); equality of the positional bootstrap epsilon_0 under permutation is a "
+        "hypothesis (detect_batch=2 decisions are outside the property).",
+   technique="Lean 4 proof (permutation invariance of the models' batch summaries, lifted to histories) + permuted-twin relation on the real batch detectors",
+   ref="§7 C18"),
  "C16": dict(
    text="Lean 4 theorems that any detector step fed only the agreement bit / confusion cell / no extra argument yields identical complete-state traces under "
         "any label encoding with equal agreement (incl. injective relabelling, >= 3 classes) and any unused-argument values, instantiated for the DDM / EDDM / "
@@ -152,6 +169,27 @@ CHECKS = {
         "detect_batch=1 with a 2-row new reference.",
    technique="Lean 4 proof (invariants / induction over batch histories, field algebra, real analysis for the divergence bounds) + differential correspondence + declarative clauses on implementation records",
    ref="§7 C07"),
+ "C08": dict(
+   text="Lean 4 theorems on a carrier-polymorphic model of KDQTreePartitioner: build returns exactly the tree of the declarative Built predicate (every internal "
+        "node splits axis depth mod m at the midpoint of the points it holds, holds more than count_ubound points, stop rule as coded), each node's count is "
+        "its children's sum, leaf counts add to the points built / filled after every history of fills, fill sends every point to exactly one leaf cell, "
+        "filling the build data under another id reproduces the build counts, accumulate / reset rule, flatten lists every node once with exact parent and "
+        "depth, Kulldorff statistic = two-cell KL; over ordered fields: termination (fuel suffices, no None child), midpoint, +0.5 distributions sum to one; "
+        "over R: KL >= 0 (Gibbs), KL(self) = 0. Tied to the code by correspondence on the public tree plus 12 property clauses on the implementation.",
+   note="Structural theorems assume only complementarity of > / <= and no None child; Float rounding not covered (known finding: midpoint of adjacent floats "
+        "rounds to the maximum -> empty upper half / RecursionError); one build per partitioner.",
+   technique="Lean 4 proof (refinement to a declarative tree spec, structural induction, ordered-field termination, Gibbs inequality) + differential correspondence + property clauses on the public tree",
+   ref="§7 C08"),
+ "C09": dict(
+   text="Lean 4 theorems on the kdq detector model (bootstrap draws as inputs): streaming phases (first w samples build the tree, silent for a further w), "
+        "counter = length of the current uninterrupted run of exceeding evaluations over every history, drift iff that run > persistence*window, restart after "
+        "drift; batch drift iff KL(ref||batch) > critical, drifted batch adopted as reference, set_reference; the critical value is the nearest-rank "
+        "(1-alpha) order statistic of the bootstrap divergences, sample size = reference size. Tied to kdq_tree.py by correspondence with recorded "
+        "np.random.choice draws plus an independent monitor that recomputes divergence and decisions from the public per-node counts.",
+   note="Lifecycle and decision theorems for every carrier; divergence and critical value at Float tied by correspondence only (thin-margin rule below 1e-9); "
+        "numpy RNG trusted for the draws.",
+   technique="Lean 4 proof (history invariant: counter = run length; order-statistic characterisation) + differential correspondence with captured draws + monitor on public observables",
+   ref="§7 C09"),
  "C13": dict(
    text="Lean 4 theorems for all n and all parameters: majority/minimum/ordered verdict iff count rule, range, monotonicity; "
         "ConfirmedElection refines the documented per-member voter automaton, counters <= wait_time. Tied to election.py by an "
